@@ -122,7 +122,7 @@ Definition src2_config_getattr (v_self : pyval) (v_attr : pyval) (v_context : py
    | BErr => PErr
    end)).
 
-(* saml2/config.py:Config._load, lines 344-361 *)
+(* saml2/config.py:Config._load, lines 344-367 *)
 Definition src2_config_load_module (path_split : pyval -> pyval) (sys_path : pyval) (path_insert : pyval -> pyval -> pyval) (import_module : pyval -> pyval -> pyval) (abspath : pyval -> pyval) (path_join : pyval -> pyval -> pyval) (isfile : pyval -> pyval) (samefile : pyval -> pyval -> pyval) (spec_from_file : pyval -> pyval -> pyval) (module_from_spec : pyval -> pyval) (exec_module : pyval -> pyval -> pyval) (v_self : pyval) (v_fil : pyval) : pyval :=
   let v_head := PErr in
   let v_tail := PErr in
@@ -132,7 +132,7 @@ Definition src2_config_load_module (path_split : pyval -> pyval) (sys_path : pyv
   let v_spec := PErr in
   (py_bind (py_bind v_fil (fun a_1 => (path_split a_1))) (fun a_2 =>
    (match p2_unpack 2 a_2 with
-   | PList [v_head; v_tail] => (let k_20 := fun (_ : unit) =>
+   | PList [v_head; v_tail] => (let k_25 := fun (_ : unit) =>
     (py_bind (py_bind v_tail (fun a_3 => (import_module v_head a_3))) (fun v_mod =>
     (py_bind (py_bind (py_bind (p2_or v_head (PStr ".")) (fun a_4 => (abspath a_4))) (fun a_5 => (py_bind (p2_fconcat [p2_str v_tail; PStr ".py"]) (fun a_6 => (path_join a_5 a_6))))) (fun v_wanted =>
     (py_bind (py_bind v_mod (fun a_7 => (p2_getattr3 a_7 "file" PNone))) (fun v_found =>
@@ -141,28 +141,39 @@ Definition src2_config_load_module (path_split : pyval -> pyval) (sys_path : pyv
     (py_bind (py_bind v_spec (fun a_14 => (module_from_spec a_14))) (fun v_mod =>
     (py_bind (py_bind v_mod (fun a_15 => (exec_module v_spec a_15))) (fun _ =>
     v_mod))))))
+    | BFalse => (match p2_branch (p2_and v_head (p2_and v_found (p2_not (py_bind v_wanted (fun a_16 => (isfile a_16)))))) with
+    | BTrue => (match p2_branch (p2_not (p2_startswith (py_bind v_found (fun a_17 => (abspath a_17))) (p2_add (py_bind v_head (fun a_18 => (abspath a_18))) (PStr "/")))) with
+    | BTrue => (py_bind v_tail (fun _ =>
+    (PExc "ModuleNotFoundError")))
     | BFalse => v_mod
-    | BExc n_16 => (PExc n_16)
+    | BExc n_19 => (PExc n_19)
+    | BErr => PErr
+    end)
+    | BFalse => v_mod
+    | BExc n_20 => (PExc n_20)
+    | BErr => PErr
+    end)
+    | BExc n_21 => (PExc n_21)
     | BErr => PErr
     end))))))) in
    (match p2_branch (p2_eq v_head (PStr "")) with
    | BTrue => (match p2_branch (p2_ne (p2_getitem sys_path (PInt (0)%Z)) (PStr ".")) with
    | BTrue => (py_bind (path_insert (PInt (0)%Z) (PStr ".")) (fun _ =>
-   (k_20 tt)))
-   | BFalse => (k_20 tt)
-   | BExc n_18 => (PExc n_18)
+   (k_25 tt)))
+   | BFalse => (k_25 tt)
+   | BExc n_23 => (PExc n_23)
    | BErr => PErr
    end)
-   | BFalse => (py_bind (py_bind v_head (fun a_19 => (path_insert (PInt (0)%Z) a_19))) (fun _ =>
-   (k_20 tt)))
-   | BExc n_20 => (PExc n_20)
+   | BFalse => (py_bind (py_bind v_head (fun a_24 => (path_insert (PInt (0)%Z) a_24))) (fun _ =>
+   (k_25 tt)))
+   | BExc n_25 => (PExc n_25)
    | BErr => PErr
    end))
-   | PExc n_21 => (PExc n_21)
+   | PExc n_26 => (PExc n_26)
    | _ => PErr
    end))).
 
-(* saml2/config.py:Config.load_file, lines 363-377 *)
+(* saml2/config.py:Config.load_file, lines 369-383 *)
 Definition src2_config_load_file (load_module : pyval -> pyval -> pyval) (deepcopy : pyval -> pyval) (config_load : pyval -> pyval -> pyval) (v_self : pyval) (v_config_filename : pyval) (v_metadata_construction : pyval) : pyval :=
   let v_warn_msg := PErr in
   let v_mod := PErr in
